@@ -692,6 +692,14 @@ func streamDebsig(g *core.G) {
 		ms := m.members()
 		signer := ks[r.Intn(2)]
 		role := r.Pick([]string{"origin", "maint", "archive"})
+		if r.Chance(1, 3) {
+			// any role whose member name fits the 16-byte name column, up to filling it exactly
+			role = r.Pick([]string{"origin-local", "maint-team-qa", "a", "archive-2024", "x-y", "originmaint1"})
+			role = role[:min(len(role), r.Range(1, 12))]
+			if r.Chance(1, 2) {
+				role = (role + "-local-mirror")[:12]
+			}
+		}
 		msg := append(append(append([]byte{}, ms[0].Data...), ms[1].Data...), ms[2].Data...)
 		sig := detachSign(signer, msg)
 		ms = append(ms, arMember{Name: "_gpg" + role, TS: "0", UID: "0", GID: "0", Mode: "100644", Data: sig})
@@ -705,7 +713,43 @@ func streamDebsig(g *core.G) {
 		emitDebsig(g, good, role, krEmpty)
 		emitDebsig(g, good, r.Pick([]string{"origin", "maint", "archive", "builder", ""}), krIn)
 		other := map[string]string{"origin": "maint", "maint": "archive", "archive": "origin"}[role]
+		if other == "" {
+			other = "origin"
+		}
 		g.Emit("law-debsig", core.Hex(string(good)), core.Hex(other), core.Hex(serializeKeyring(krIn)), "reject", "")
+		// roles that are not present but resemble the one that is: longer, shorter, other case
+		for _, q := range []string{role + "2", role + "-mirror", role[:len(role)-1], strings.ToUpper(role), " " + role, role + " ", role + "/"} {
+			if q != role && r.Chance(1, 2) {
+				emitDebsig(g, good, q, krIn)
+				g.Emit("law-debsig", core.Hex(string(good)), core.Hex(q), core.Hex(serializeKeyring(krIn)), "reject", "")
+			}
+		}
+		// the signed bytes kept under a name that merely resembles control.* / data.*, while the
+		// member the loader reads holds something else: verification must fail
+		for rep := g.N(2, 6); rep > 0; rep-- {
+			k := 1 + r.Intn(2)
+			dm := genDebModel(r)
+			repl := arMember{Name: ms[k].Name, TS: "0", UID: "0", GID: "0", Mode: "100644"}
+			if k == 1 {
+				repl.Data = compress(m.CtlExt, buildTar(dm.CtlFiles))
+			} else {
+				repl.Data = compress(m.DataExt, buildTar(dm.DataFiles))
+			}
+			if bytes.Equal(repl.Data, ms[k].Data) {
+				continue
+			}
+			base := []string{"control", "data"}[k-1]
+			keep := ms[k]
+			keep.Name = base + r.Pick([]string{"", "orig", "_", "_orig.tar", "-tar.gz", "tar", "~", "2.tar.gz"})
+			bad := append([]arMember{}, ms...)
+			bad[k] = repl
+			pos := r.Intn(len(bad) + 1)
+			bad = append(append(append([]arMember{}, bad[:pos]...), keep), bad[pos:]...)
+			data := buildAr(bad)
+			emitDebsig(g, data, role, krIn)
+			g.Emit("law-debsig", core.Hex(string(data)), core.Hex(role), core.Hex(serializeKeyring(krIn)), "reject", "")
+			emitDeb(g, data)
+		}
 		// single-byte corruption inside each signed member and the signature
 		for k := 0; k < 4; k++ {
 			for rep := g.N(2, 6); rep > 0; rep-- {
@@ -864,7 +908,7 @@ func init() {
 		ID: "C16", PropsModule: "GoDebian.Props.C16",
 		Facts: append(append([]string{}, debFacts...), "fingerprint:deb.Deb.CheckDebsig"),
 		Streams: []core.Stream{{Name: "debsig", Gen: streamDebsig,
-			Domain: "signed packages (detached signature by one of two RSA keys over debian-binary ++ control member ++ data member) x roles x keyrings (signer in / not in / empty) x wrong role; every signed member and the signature with a random single-bit corruption; decoy control.*/data.* members inserted at every position; model (which ranges are verified; the real OpenPGP verdict on exactly those ranges) vs Load + CheckDebsig repeated 6-12 times; law-debsig: valid accepted with the signer's key id, everything else rejected on every repetition"}},
+			Domain: "signed packages (detached signature by one of two RSA keys over debian-binary ++ control member ++ data member) x roles (the usual three and roles of 1-12 bytes, up to a member name that fills the 16-byte column) x keyrings (signer in / not in / empty) x absent roles (another one, and longer / shorter / re-cased / padded spellings of the present one); the signed bytes kept under a look-alike name (data, dataorig, control_, data-tar.gz, ...) while the member the loader reads is replaced; every signed member and the signature with a random single-bit corruption; decoy control.*/data.* members inserted at every position; model (which ranges are verified; the real OpenPGP verdict on exactly those ranges) vs Load + CheckDebsig repeated 6-12 times; law-debsig: valid accepted with the signer's key id, everything else rejected on every repetition"}},
 		Impl: debImpl, Readable: debReadable, TrustedBase: append(append([]string{}, tb...), "OpenPGP signature verification (golang.org/x/crypto/openpgp): tamper evidence is its contract, exercised not proved"),
 	})
 }
